@@ -179,8 +179,12 @@ pub fn run_dec_check(ctx: &Ctx, check: &DecCheck) -> Stats {
                                             }
                                         }
                                     }
-                                    let h = &variants[0];
-                                    st.sample(1, || h.to_json());
+                                    let h = variants.last().unwrap();
+                                    if st.samples.is_empty() && h.stream.len() >= 3 && !h.cuts.is_empty() && !h.caps.is_empty() && crate::gen::has_non_ascii(&h.stream) {
+                                        let mut j = h.to_json();
+                                        j["transcript"] = sc.drv.run(h).transcript_json();
+                                        st.samples.push(j);
+                                    }
                                 }
                             }
                         }
@@ -279,7 +283,12 @@ pub fn run_dec_check(ctx: &Ctx, check: &DecCheck) -> Stats {
             }
             match (check.verdict)(h, &mut sc, st, false) {
                 None => {
-                    st.sample(1, || h.to_json());
+                    if st.samples.is_empty() && crate::gen::has_non_ascii(&h.stream) && !h.cuts.is_empty() {
+                        let mut j = h.to_json();
+                        j["transcript"] = sc.drv.run(h).transcript_json();
+                        j["generated"] = serde_json::json!("random");
+                        st.samples.push(j);
+                    }
                     vec![]
                 }
                 Some((msg, sig)) => {
